@@ -63,8 +63,9 @@ def _parse_tlc(out, res):
         res.violated = m.group(1)
     elif re.search(r"Error: Action property (\S+)", out):
         res.violated = re.search(r"Error: Action property (\S+)", out).group(1)
-    elif "Temporal properties were violated" in out:
-        res.violated = "temporal"
+    elif "Temporal properties were violated" in out or re.search(r"Temporal property \S+ was violated", out):
+        m2 = re.search(r"Temporal property (\S+) was violated", out)
+        res.violated = m2.group(1) if m2 else "temporal"
     elif "Deadlock reached" in out:
         res.violated = "deadlock"
     elif re.search(r"[Pp]ost-?condition", out) and ("violated" in out or "false" in out.lower()) and "Error" in out:
